@@ -11,9 +11,11 @@ package lin
 import (
 	"encoding/json"
 	"fmt"
+	"os"
 	"sort"
 	"strings"
 	"testing"
+	"time"
 
 	"github.com/esimov/gogu/bstree"
 	"github.com/esimov/gogu/cache"
@@ -35,9 +37,21 @@ type opDef struct {
 
 type typeDef struct {
 	Name    string
-	Mk      func(state int) any // builds the instance in initial state 0..2 (outside the scheduler)
+	Mk      func(state int) any // builds the instance in initial state 0..NStates-1 (outside the scheduler)
+	NStates int                 // 0 means 3
 	Ops     []opDef
 	Observe func(inst any) string // follow-up observation after all threads finished
+	// SafetyOnly: the operations include multi-element calls for which the statement of C02 promises
+	// nothing (variadic Push, Merge, Meld, Keys, List, MapToCache ...): executions are judged for
+	// deadlock, livelock and panics only (property C01), not against the sequential outcomes.
+	SafetyOnly bool
+}
+
+func (td *typeDef) states() int {
+	if td.NStates > 0 {
+		return td.NStates
+	}
+	return 3
 }
 
 func s(v ...any) string { return fmt.Sprint(v...) }
@@ -313,9 +327,16 @@ func cacheType() typeDef {
 			case 2:
 				c.Set("k", 9, cache.NoExpiration)
 				c.Set("j", 8, cache.NoExpiration)
+			case 3:
+				// k is stored but already expired (not purged: no cleanup goroutine), j is live
+				c.Set("k", 9, time.Nanosecond)
+				c.Set("j", 8, cache.NoExpiration)
+				for t0 := time.Now(); time.Since(t0) < 2*time.Microsecond; {
+				}
 			}
 			return c
 		},
+		NStates: 4,
 		Ops: []opDef{
 			{"Set(k,1)", func(i any) string { return s(i.(C).Set("k", 1, cache.NoExpiration) != nil) }},
 			{"Set(k,2)", func(i any) string { return s(i.(C).Set("k", 2, cache.NoExpiration) != nil) }},
@@ -325,6 +346,7 @@ func cacheType() typeDef {
 			{"Delete(k)", func(i any) string { return s(i.(C).Delete("k") != nil) }},
 			{"Count", func(i any) string { return s(i.(C).Count()) }},
 			{"IsExpired(k)", func(i any) string { return s(i.(C).IsExpired("k")) }},
+			{"DeleteExpired", func(i any) string { return s(i.(C).DeleteExpired() != nil) }},
 		},
 		Observe: func(i any) string {
 			return s("count=", i.(C).Count(), " k:", get(i, "k"), " j:", get(i, "j"))
@@ -332,12 +354,135 @@ func cacheType() typeDef {
 	}
 }
 
+// ---------------------------------------------------------------------------
+// safety-only types: every public method, including the multi-element ones
+
+type heapPair struct{ h, o *heap.Heap[int] }
+
+func heap2Type() typeDef {
+	type P = *heapPair
+	less := func(a, b int) bool { return a < b }
+	more := func(a, b int) bool { return a > b }
+	sum := func(h *heap.Heap[int]) string {
+		if h == nil {
+			return "nil"
+		}
+		vs := h.GetValues()
+		t := 0
+		for _, v := range vs {
+			t += v
+		}
+		return s(len(vs), "/", t)
+	}
+	return typeDef{
+		Name: "heap2", SafetyOnly: true,
+		Mk: func(st int) any {
+			p := &heapPair{h: heap.NewHeap(less), o: heap.NewHeap(less)}
+			switch st {
+			case 1:
+				p.h.Push(1)
+				p.o.Push(2)
+			case 2:
+				p.h.Push(2, 1, 3)
+				p.o.Push(5, 4)
+			}
+			return p
+		},
+		Ops: []opDef{
+			{"Push(1)", func(i any) string { i.(P).h.Push(1); return "" }},
+			{"Push(2,3)", func(i any) string { i.(P).h.Push(2, 3); return "" }},
+			{"Pop", func(i any) string { return s(i.(P).h.Pop()) }},
+			{"Peek", func(i any) string { return s(i.(P).h.Peek()) }},
+			{"Size", func(i any) string { return s(i.(P).h.Size()) }},
+			{"IsEmpty", func(i any) string { return s(i.(P).h.IsEmpty()) }},
+			{"Clear", func(i any) string { i.(P).h.Clear(); return "" }},
+			{"Delete(1)", func(i any) string { ok, err := i.(P).h.Delete(1); return s(ok, err != nil) }},
+			{"GetValues+read", func(i any) string { return sum(i.(P).h) }},
+			{"Convert(>)", func(i any) string { i.(P).h.Convert(more); return "" }},
+			{"Merge(o)", func(i any) string { return sum(i.(P).h.Merge(i.(P).o)) }},
+			{"o.Merge(h)", func(i any) string { return sum(i.(P).o.Merge(i.(P).h)) }},
+			{"Merge(h)", func(i any) string { return sum(i.(P).h.Merge(i.(P).h)) }},
+			{"Meld(o)", func(i any) string { return sum(i.(P).h.Meld(i.(P).o)) }},
+			{"o.Meld(h)", func(i any) string { return sum(i.(P).o.Meld(i.(P).h)) }},
+			{"o.Push(1)", func(i any) string { i.(P).o.Push(1); return "" }},
+			{"o.Pop", func(i any) string { return s(i.(P).o.Pop()) }},
+		},
+		Observe: func(i any) string {
+			out := ""
+			for _, h := range []*heap.Heap[int]{i.(P).h, i.(P).o} {
+				out += s("size=", h.Size(), " drain=")
+				for k := 0; k < 40 && h.Size() > 0; k++ {
+					out += s(h.Pop(), ",")
+				}
+				h.Push(7)
+				out += s(" again=", h.Pop(), "; ")
+			}
+			return out
+		},
+	}
+}
+
+func trie2Type() typeDef {
+	td := trieType()
+	type T = *trie.Trie[string, int]
+	drain := func(q interface {
+		Size() int
+		Dequeue() (string, error)
+	}, err error) string {
+		if err != nil {
+			return "error"
+		}
+		out := ""
+		for k := 0; k < 40 && q.Size() > 0; k++ {
+			v, _ := q.Dequeue()
+			out += v + ","
+		}
+		return out
+	}
+	td.Name, td.SafetyOnly = "trie2", true
+	td.Ops = append(append([]opDef(nil), td.Ops...),
+		opDef{"Keys+drain", func(i any) string { q, err := i.(T).Keys(); return drain(q, err) }},
+		opDef{"StartsWith(a)+drain", func(i any) string { q, err := i.(T).StartsWith("a"); return drain(q, err) }},
+		opDef{"LongestPrefix(abc)", func(i any) string { v, err := i.(T).LongestPrefix("abc"); return s(v, err != nil) }},
+		opDef{"Put(b,4)", func(i any) string { i.(T).Put("b", 4); return "" }},
+	)
+	return td
+}
+
+func cache2Type() typeDef {
+	td := cacheType()
+	type C = *cache.Cache[string, int]
+	td.Name, td.SafetyOnly = "cache2", true
+	td.Ops = append(append([]opDef(nil), td.Ops...),
+		opDef{"List+iterate", func(i any) string {
+			n := 0
+			for _, it := range i.(C).List() {
+				n += it.Val()
+			}
+			return s(n)
+		}},
+		opDef{"MapToCache(k,m)", func(i any) string {
+			return s(i.(C).MapToCache(map[string]int{"k": 1, "m": 2}, cache.NoExpiration) != nil)
+		}},
+		opDef{"Flush", func(i any) string { i.(C).Flush(); return "" }},
+		opDef{"Set(k,6,1h)", func(i any) string { return s(i.(C).Set("k", 6, time.Hour) != nil) }},
+	)
+	return td
+}
+
+var safetyTypes = []typeDef{heap2Type(), trie2Type(), cache2Type()}
+
 var types = []typeDef{heapType(), queueType(), lqueueType(), stackType(), lstackType(), bstType(), trieType(), cacheType()}
 
 func typeByName(n string) *typeDef {
 	for i := range types {
 		if types[i].Name == n {
 			return &types[i]
+		}
+	}
+	for i := range safetyTypes {
+		if safetyTypes[i].Name == n {
+			return &safetyTypes[i]
 		}
 	}
 	return nil
@@ -352,6 +497,9 @@ type Case struct {
 	State    int     `json:"state"`
 	Threads  [][]int `json:"threads"`            // op indices per thread
 	Schedule []int   `json:"schedule,omitempty"` // choices among the enabled threads
+	// AfterUnlock: the instant after every Unlock/RUnlock is a scheduling point too (what a call
+	// still does after leaving a critical section can then be overtaken by the other threads).
+	AfterUnlock bool `json:"after_unlock,omitempty"`
 }
 
 func (c Case) String() string {
@@ -364,7 +512,11 @@ func (c Case) String() string {
 		}
 		ts = append(ts, "["+strings.Join(ns, "; ")+"]")
 	}
-	return fmt.Sprintf("%s(state %d) %s", c.Type, c.State, strings.Join(ts, " || "))
+	au := ""
+	if c.AfterUnlock {
+		au = " [scheduling points also after unlocks]"
+	}
+	return fmt.Sprintf("%s(state %d) %s%s", c.Type, c.State, strings.Join(ts, " || "), au)
 }
 
 type callRef struct{ th, idx int }
@@ -464,6 +616,8 @@ func concurrent(td *typeDef, c Case, choose func(k int) int) concRun {
 		flat[cr] = i
 	}
 	inst := td.Mk(c.State)
+	vsync.AfterUnlock = c.AfterUnlock
+	defer func() { vsync.AfterUnlock = false }()
 	out := concRun{start: make([]int, len(calls)), end: make([]int, len(calls)), results: make([]string, len(calls))}
 	for i := range out.results {
 		out.results[i] = "NOT-RUN"
@@ -509,6 +663,18 @@ func judge(c Case, seq []seqRun, cr concRun) error {
 		if p != nil {
 			return fmt.Errorf("%v: harness panic in thread %d: %v", c, tid, p)
 		}
+	}
+	if td := typeByName(c.Type); td != nil && td.SafetyOnly {
+		// no call panics when the calls run one at a time (checked by the caller): a panic here is caused by the interleaving
+		for i, r := range cr.results {
+			if strings.HasPrefix(r, "PANIC: ") {
+				return fmt.Errorf("%v: a call panics under schedule %v although no one-at-a-time order of these calls panics:%s\n    (call %d)", c, cr.res.Choices, describe(), i)
+			}
+		}
+		if strings.HasPrefix(cr.observed, "PANIC: ") {
+			return fmt.Errorf("%v: the instance is unusable after schedule %v: %s%s", c, cr.res.Choices, cr.observed, describe())
+		}
+		return nil
 	}
 	n := len(cr.start)
 	for _, sr := range seq {
@@ -587,10 +753,25 @@ type progStats struct {
 	schedules, overlapping int64
 	distinct               int
 	capped                 bool
+	sampled                int64
 }
 
-// explore enumerates every schedule of one program (up to cap).
-func explore(t *testing.T, x *pbt.Ctx, td *typeDef, c Case, cap int64) (st progStats, fail bool) {
+// splitmix64: the schedule sampler used once the depth-first enumeration of a program hit its cap.
+// The schedule actually taken is recorded in the case, so a failure replays without it.
+type mix struct{ x uint64 }
+
+func (m *mix) next() uint64 {
+	m.x += 0x9e3779b97f4a7c15
+	z := m.x
+	z = (z ^ (z >> 30)) * 0xbf58476d1ce4e5b9
+	z = (z ^ (z >> 27)) * 0x94d049bb133111eb
+	return z ^ (z >> 31)
+}
+
+// explore enumerates every schedule of one program depth-first (up to cap); when the cap is hit it
+// adds `extra` schedules drawn uniformly at every choice (the depth-first prefix alone only covers
+// one corner of the schedule tree).
+func explore(t *testing.T, x *pbt.Ctx, td *typeDef, c Case, cap int64, extra int, seed uint64) (st progStats, fail bool) {
 	seq, anyPanic := sequential(td, c)
 	if anyPanic {
 		// A call that panics when run alone is a sequential defect (C03-C10), not a
@@ -599,15 +780,10 @@ func explore(t *testing.T, x *pbt.Ctx, td *typeDef, c Case, cap int64) (st progS
 		return st, false
 	}
 	vectors := map[string]bool{}
-	od := pbt.NewOdometer()
-	for od.Next() {
-		if st.schedules >= cap {
-			st.capped = true
-			break
-		}
+	one := func(choose func(k int) int) bool {
 		cc := c
 		x.Progress(cc)
-		cr := concurrent(td, c, od.Intn)
+		cr := concurrent(td, c, choose)
 		st.schedules++
 		if cr.res.Overlap {
 			st.overlapping++
@@ -620,66 +796,141 @@ func explore(t *testing.T, x *pbt.Ctx, td *typeDef, c Case, cap int64) (st progS
 		if err := judge(c, seq, cr); err != nil {
 			cc.Schedule = append([]int(nil), cr.res.Choices...)
 			x.Violation(cc, err.Error(), "enum")
+			return true
+		}
+		return false
+	}
+	od := pbt.NewOdometer()
+	for od.Next() {
+		if st.schedules >= cap {
+			st.capped = true
+			break
+		}
+		if one(od.Intn) {
 			return st, true
+		}
+	}
+	if st.capped {
+		rng := &mix{x: seed}
+		for i := 0; i < extra; i++ {
+			st.sampled++
+			if one(func(k int) int { return int(rng.next() % uint64(k)) }) {
+				return st, true
+			}
 		}
 	}
 	st.distinct = len(vectors)
 	return st, false
 }
 
-func body(t *testing.T, x *pbt.Ctx) {
-	cfg := x.M.Cfg
-	x.P.EnumRan = true
-	x.P.EnumComplete = true
-	capPer := int64(30000)
-	if cfg.Thorough {
-		capPer = 400000
+// plan says which programs of which types a mode explores.
+type plan struct {
+	types  []typeDef
+	shapes []string
+	// afterUnlock: shapes explored with the additional scheduling points after unlocks
+	afterUnlock map[string]bool
+	// sampled: shapes of which the quick tier only explores a seeded 1-in-4 sample of the programs
+	sampled map[string]bool
+}
+
+func linPlan(thorough bool) plan {
+	p := plan{types: types, shapes: []string{"2x1", "3x1", "1x2+1", "2x2"},
+		afterUnlock: map[string]bool{"2x1": true, "3x1": true, "1x2+1": true},
+		sampled:     map[string]bool{"2x2": true}}
+	if thorough {
+		p.afterUnlock["2x2"] = true
 	}
-	idx := 0
-	failedTypes := map[string]bool{}
-	for ti := range types {
-		td := &types[ti]
-		shapes := []string{"2x1", "3x1", "1x2+1", "2x2"}
-		for _, shape := range shapes {
-			progs := programs(len(td.Ops), shape)
-			for pi, th := range progs {
-				for state := 0; state < 3; state++ {
-					idx++
-					if idx%cfg.NShards != cfg.Shard {
-						continue
-					}
-					if shape == "2x2" && !cfg.Thorough {
-						// quick tier: a seeded 1-in-4 sample of the 2x2 programs
-						h := pbt.Hash([]byte(fmt.Sprintf("%d/%s/%d/%d", cfg.Seed, td.Name, pi, state)))
-						if h%4 != 0 {
-							x.P.Labels["2x2 program not sampled (quick tier)"]++
-							x.P.EnumComplete = false
+	return p
+}
+
+func safetyPlan(thorough bool) plan {
+	return plan{types: safetyTypes, shapes: []string{"2x1", "3x1", "4x1merge"},
+		afterUnlock: map[string]bool{"2x1": true, "3x1": thorough, "4x1merge": false},
+		sampled:     map[string]bool{"3x1": true}}
+}
+
+func bodyFor(mk func(thorough bool) plan) func(t *testing.T, x *pbt.Ctx) {
+	return func(t *testing.T, x *pbt.Ctx) {
+		cfg := x.M.Cfg
+		pl := mk(cfg.Thorough)
+		x.P.EnumRan = true
+		x.P.EnumComplete = true
+		capPer, extra := int64(30000), 2000
+		if cfg.Thorough {
+			capPer, extra = 400000, 20000
+		}
+		idx := 0
+		failedTypes := map[string]bool{}
+		for ti := range pl.types {
+			td := &pl.types[ti]
+			for _, shape := range pl.shapes {
+				var progs [][][]int
+				if shape == "4x1merge" {
+					progs = mergePrograms(td)
+				} else {
+					progs = programs(len(td.Ops), shape)
+				}
+				for pi, th := range progs {
+					for state := 0; state < td.states(); state++ {
+						idx++
+						if idx%cfg.NShards != cfg.Shard {
 							continue
 						}
-					}
-					if failedTypes[td.Name+shape] {
-						continue
-					}
-					c := Case{Type: td.Name, State: state, Threads: th}
-					st, fail := explore(t, x, td, c, capPer)
-					x.P.Evaluations += st.schedules
-					x.P.EnumCases += st.schedules
-					x.P.EnumNonTrivial += int64(st.distinct)
-					x.P.Labels["programs "+shape]++
-					x.P.Labels["programs "+td.Name]++
-					x.P.Labels["schedules with overlapping calls"] += st.overlapping
-					if st.capped {
-						x.P.Labels["program capped at "+fmt.Sprint(capPer)+" schedules"]++
-						x.P.EnumComplete = false
-					}
-					if fail {
-						x.P.EnumComplete = false
-						failedTypes[td.Name+shape] = true
+						if pl.sampled[shape] && !cfg.Thorough {
+							// quick tier: a seeded 1-in-4 sample of these programs
+							h := pbt.Hash([]byte(fmt.Sprintf("%d/%s/%d/%d", cfg.Seed, td.Name, pi, state)))
+							if h%4 != 0 {
+								x.P.Labels[shape+" program not sampled (quick tier)"]++
+								x.P.EnumComplete = false
+								continue
+							}
+						}
+						if failedTypes[td.Name+shape] {
+							continue
+						}
+						c := Case{Type: td.Name, State: state, Threads: th, AfterUnlock: pl.afterUnlock[shape]}
+						seed := pbt.Hash([]byte(fmt.Sprintf("sched/%d/%s/%s/%d/%d", cfg.Seed, td.Name, shape, pi, state)))
+						st, fail := explore(t, x, td, c, capPer, extra, seed)
+						x.P.Evaluations += st.schedules
+						x.P.EnumCases += st.schedules
+						x.P.EnumNonTrivial += int64(st.distinct)
+						x.P.Labels["programs "+shape]++
+						x.P.Labels["programs "+td.Name]++
+						x.P.Labels["schedules with overlapping calls"] += st.overlapping
+						if st.capped {
+							x.P.Labels["program capped at "+fmt.Sprint(capPer)+" depth-first schedules (+ sampled ones)"]++
+							x.P.Labels["schedules sampled after the cap"] += st.sampled
+							x.P.EnumComplete = false
+						}
+						if fail {
+							x.P.EnumComplete = false
+							failedTypes[td.Name+shape] = true
+						}
 					}
 				}
 			}
 		}
 	}
+}
+
+// mergePrograms: the four-thread programs in which two heaps are merged into each other while a writer is queued on each.
+func mergePrograms(td *typeDef) [][][]int {
+	if td.Name != "heap2" {
+		return nil
+	}
+	ix := func(name string) int {
+		for i, o := range td.Ops {
+			if o.Name == name {
+				return i
+			}
+		}
+		panic("no op " + name)
+	}
+	var out [][][]int
+	for _, pair := range [][2]string{{"Merge(o)", "o.Merge(h)"}, {"Meld(o)", "o.Meld(h)"}, {"Merge(o)", "o.Meld(h)"}} {
+		out = append(out, [][]int{{ix(pair[0])}, {ix(pair[1])}, {ix("Push(1)")}, {ix("o.Push(1)")}})
+	}
+	return out
 }
 
 func replay(t *testing.T, raw json.RawMessage, x *pbt.Ctx) error {
@@ -712,9 +963,13 @@ func runCase(c Case, r *pbt.R) error {
 	return judge(c, seq, cr)
 }
 
-func genCase(s pbt.Src, thorough bool) Case {
-	td := &types[s.Intn(len(types))]
-	c := Case{Type: td.Name, State: s.Intn(3)}
+func genCaseFrom(ts []typeDef) func(s pbt.Src, thorough bool) Case {
+	return func(s pbt.Src, thorough bool) Case { return genCaseOf(ts, s, thorough) }
+}
+
+func genCaseOf(ts []typeDef, s pbt.Src, thorough bool) Case {
+	td := &ts[s.Intn(len(ts))]
+	c := Case{Type: td.Name, State: s.Intn(td.states()), AfterUnlock: pbt.Bool(s)}
 	nth := 2 + s.Intn(2)
 	for i := 0; i < nth; i++ {
 		c.Threads = append(c.Threads, pbt.Seq(s, 1, 3, func(s pbt.Src) int { return s.Intn(len(td.Ops)) }))
@@ -724,19 +979,40 @@ func genCase(s pbt.Src, thorough bool) Case {
 }
 
 func TestProp(t *testing.T) {
+	if os.Getenv("VERIF_LIN_MODE") == "safety" {
+		// property C01, controlled part: deadlocks, livelocks and interleaving-dependent panics of ALL public
+		// methods (also the multi-element ones whose atomicity nothing promises)
+		pbt.Run(t, "C01",
+			&pbt.Custom{
+				Name: "controlled",
+				Rule: "controlled scheduler (same shim and explorer as C02) over ALL public methods of heap (two instances: variadic Push, GetValues, Convert, Merge/Meld in both directions and with itself), trie (also Keys, StartsWith, LongestPrefix with the shared result queue drained) and cache (also List, MapToCache, Flush, SetDefault; an initial state with an expired entry): " +
+					"every program of 2 threads x 1 call (scheduling points also after unlocks), 3 threads x 1 call (quick: a seeded 1-in-4 sample) and the 4-thread cross-merge programs (h.Merge(o) || o.Merge(h) || h.Push || o.Push and the Meld variants) from 3-4 initial states; every schedule depth-first up to a cap, then uniformly sampled schedules. " +
+					"Oracle: no deadlock, no livelock (> 4000 steps), no call that panics although it does not panic in any one-at-a-time order, instance usable afterwards. (bstree.Traverse and the cache cleanup start goroutines of their own and stay with the free-running part.) " +
+					"evaluations = schedules executed; non-trivial = two calls in progress at the same time; distinct = distinct (program, outcome vector) pairs among those.",
+				Body: bodyFor(safetyPlan), Replay: replay,
+			},
+			&pbt.Check[Case]{
+				Name: "controlled-random",
+				Rule: "random programs of 2-3 threads x 1-3 calls over the same operations with a random schedule, shrunk together by rapid; same oracle.",
+				Gen:  genCaseFrom(safetyTypes), Prop: runCase, OutOfEnum: func(c Case, th bool) bool { return true },
+				RapidQuick: 800, RapidThorough: 20000,
+			},
+		)
+		return
+	}
 	pbt.Run(t, "C02",
 		&pbt.Custom{
 			Name: "schedules",
-			Rule: "for each of heap, queue, lqueue, stack, lstack, bstree, trie, cache: every program of 2 threads x 1 call, 3 threads x 1 call, (2 calls || 1 call) and 2 threads x 2 calls (quick tier: a seeded 1-in-4 sample of the 2x2 programs) over 6-9 single-element operations, from 3 initial states (empty / 1 / 2-3 elements); " +
-				"for each program EVERY schedule at lock granularity (scheduling points: arrival at Lock, acquisition of a Lock that was busy on arrival, acquisition of RLock; a call counts as started at its first scheduling point; writer preference modelled) is executed by the controlled scheduler (stateless depth-first enumeration), capped per program. " +
+			Rule: "for each of heap, queue, lqueue, stack, lstack, bstree, trie, cache: every program of 2 threads x 1 call, 3 threads x 1 call, (2 calls || 1 call) and 2 threads x 2 calls (quick tier: a seeded 1-in-4 sample of the 2x2 programs) over 6-9 single-element operations (cache: also DeleteExpired), from 3 initial states (empty or drained / 1 / 2-3 elements; cache: a 4th with an expired, unpurged entry); " +
+				"for each program EVERY schedule at lock granularity (scheduling points: arrival at Lock, acquisition of a Lock that was busy on arrival, acquisition of RLock, every sync/atomic operation, and - except for the 2x2 programs of the quick tier - the instant after every Unlock/RUnlock; a call counts as started at its first scheduling point; writer preference modelled) is executed by the controlled scheduler (stateless depth-first enumeration), capped per program (then continued with uniformly sampled schedules). " +
 				"Oracle: differential against one-at-a-time runs of the same build: the vector (result of every call, follow-up observation: size/count, drain or lookups) must equal that of some sequential order that respects which calls returned before others were started; a deadlock or >4000 steps is a violation. " +
 				"evaluations = schedules executed; non-trivial = a schedule in which two calls were in progress at the same time; distinct = distinct (program, outcome vector) pairs among those.",
-			Body: body, Replay: replay,
+			Body: bodyFor(linPlan), Replay: replay,
 		},
 		&pbt.Check[Case]{
 			Name: "random",
-			Rule: "random programs of 2-3 threads x 1-3 calls with a random schedule (list of choices among the enabled threads), shrunk together by rapid; same oracle. Non-trivial = overlapping calls.",
-			Gen:  genCase, Prop: runCase, OutOfEnum: func(c Case, th bool) bool { return true },
+			Rule: "random programs of 2-3 threads x 1-3 calls with a random schedule (list of choices among the enabled threads; scheduling points after unlocks on for half of the cases), shrunk together by rapid; same oracle. Non-trivial = overlapping calls.",
+			Gen:  genCaseFrom(types), Prop: runCase, OutOfEnum: func(c Case, th bool) bool { return true },
 			RapidQuick: 1500, RapidThorough: 40000,
 		},
 	)
